@@ -320,6 +320,33 @@ func spinningSiteG(dump string) (string, string) {
 	return "", ""
 }
 
+// lockedSiteG looks for a goroutine that waits for a sync.Mutex / sync.RWMutex which the service's own code asked
+// for (the frame right above the lock call is the service's): in a process that has been at a standstill for
+// minutes of real time nobody is going to release it - a lock left held on some path (an early return between Lock
+// and Unlock). Waiting on channels is not judged: idle handler goroutines do that all day.
+func lockedSiteG(dump string) (string, string) {
+	for _, b := range strings.Split(dump, "\n\n") {
+		lines := strings.Split(strings.TrimSpace(b), "\n")
+		if len(lines) < 2 || !(strings.Contains(lines[0], "[sync.Mutex.Lock") || strings.Contains(lines[0], "[sync.RWMutex.")) {
+			continue
+		}
+		for _, l := range lines[1:] {
+			if strings.HasPrefix(l, "\t") || strings.HasPrefix(l, "internal/") || strings.HasPrefix(l, "sync.") || strings.HasPrefix(l, "runtime.") {
+				continue
+			}
+			if !strings.Contains(l, "block-headers-service/") || strings.Contains(l, "/verifsim") {
+				break // the lock was asked for by a dependency or by the harness: not judged
+			}
+			fn := l[strings.LastIndex(l, "block-headers-service/")+len("block-headers-service/"):]
+			if k := strings.LastIndex(fn, "("); k > 0 {
+				fn = fn[:k]
+			}
+			return fn, strings.SplitN(lines[0], " [", 2)[0]
+		}
+	}
+	return "", ""
+}
+
 func execute(e *Engine, prop, tier string, seed uint64, t *Tape, opt map[string]string) (res *Result) {
 	execSeed.Store(seed)
 	execTape.Store(t)
